@@ -80,15 +80,41 @@ def rewrite(F, rep):
     arm = arm_regions(f, sw).get("Call", set()) if sw else set()
     if not rep.anchor("REWRITE", "Expr::Call arm", arm):
         return
-    guards = []
     pdom = postdominators(f)
-    for b in sorted(arm):
-        t = f.term(b)
-        if t["t"] != "switch" or tb in pdom.get(b, set()):
+
+    def control_deps(block):
+        out = []
+        for b in sorted(arm):
+            t = f.term(b)
+            if t["t"] != "switch" or b == sw["block"] or block in pdom.get(b, set()):
+                continue
+            if any(block in blocks_dominated_by_edge(f, b, s2) for s2 in f.succs()[b]):
+                out.append(b)
+        return out
+
+    # control dependences of the rewrite, closed under "the guard's value was itself computed under a branch"
+    guards = []
+    work = [tb]
+    seen_blocks = set()
+    while work:
+        blk = work.pop()
+        if blk in seen_blocks:
             continue
-        if not any(tb in blocks_dominated_by_edge(f, b, s) for s in f.succs()[b]):
-            continue
-        guards.append(b)
+        seen_blocks.add(blk)
+        for g in control_deps(blk):
+            if g not in guards:
+                guards.append(g)
+                pl = op_place(f.term(g)["on"])
+                if pl is not None:
+                    locs, _, _ = backward_slice(f, [pl["l"]])
+                    for bi2, b2 in enumerate(f.blocks):
+                        if bi2 not in arm:
+                            continue
+                        if any(s2["s"] == "assign" and s2["d"]["l"] in locs for s2 in b2["st"]) or \
+                                (b2["term"]["t"] == "call" and not b2["term"]["d"]["p"] and
+                                 b2["term"]["d"]["l"] in locs):
+                            work.append(bi2)
+    guards.sort()
     rep.floor("REWRITE", "branches the rewrite is control-dependent on", len(guards), 3)
     allowed = {"newtype_checked_ctor", "current_impl_type", "struct_names"}
     seen_hook = seen_impl = False
